@@ -377,6 +377,15 @@ impl Gen {
                 };
             }
         }
+        // a FULL table that is not resizing, asked for nothing: `reserve(0)`, `try_reserve(0)`, an `extend` that brings
+        // nothing — the one request whose `additional` does not cover the insertions that move the old table
+        if !split && len > 0 && o.cap == o.len && self.rng.chance(1, 6) {
+            return match self.rng.below(3) {
+                0 => (0, Op::Reserve { n: 0 }),
+                1 => (0, Op::TryReserve { n: 0 }),
+                _ => (0, Op::Extend { items: vec![], hint: None }),
+            };
+        }
         // steer towards the target size: grow to it, then churn around it
         let growing = len < self.target;
         let d = self.rng.below(100);
@@ -613,7 +622,21 @@ impl Gen {
                     let k = if only_new && i > 0 && self.rng.chance(1, 6) { items[self.rng.below(i as u64) as usize].0 } else if !only_new && self.rng.chance(1, 3) { self.some_key(w, 0) } else { self.fresh() };
                     items.push((k, self.rng.below(1000)));
                 }
-                (0, Op::Extend { items })
+                // `size_hint` is advisory: now and then the iterator claims something else than it delivers
+                let hint = if self.rng.chance(1, 5) {
+                    Some(match self.rng.below(7) {
+                        0 => 0,
+                        1 => 1,
+                        2 => items.len() * 3 + 1,
+                        3 => usize::MAX,
+                        4 => usize::MAX - 1,
+                        5 => isize::MAX as usize,
+                        _ => items.len() / 2,
+                    })
+                } else {
+                    None
+                };
+                (0, Op::Extend { items, hint })
             }
         }
     }
